@@ -138,6 +138,8 @@ for _r in ("statistics request inside the signal failed", "wrong number of stati
 for _r in ("statistics of an undefined or non-FSR signal", "statistics with a non-positive increment succeeded",
            "statistics outside the signal succeeded"):
     REASON_PROP[_r] = "C10"
+REASON_PROP["a stored summary entry does not describe its samples"] = "C02"
+REASON_PROP["a stored summary entry does not treat gap samples as absent"] = "C09"
 REASON_PROP["copy of a properly closed file failed"] = "C17"
 REASON_PROP["reading a properly closed file modified it"] = "C19"
 C03_REASONS = ["a stop between two complete writes left a file that does not open", "more signals than were defined",
@@ -159,5 +161,6 @@ for _r in ("altered file reports a different signal length as valid", "altered f
            "altered samples returned as valid", "altered statistics returned as valid", "altered source definitions returned as valid",
            "altered signal definitions returned as valid",
            "the open wrote to the altered file without changing it", "altered or incomplete annotations returned as valid",
-           "altered or incomplete UTC entries returned as valid", "altered or incomplete user data returned as valid"):
+           "altered or incomplete UTC entries returned as valid", "altered or incomplete user data returned as valid",
+           "a time conversion on the altered file disagrees with the UTC entries written"):
     REASON_PROP[_r] = "C04"
